@@ -12,6 +12,7 @@ package main
 import (
 	"bytes"
 	"encoding/json"
+	"errors"
 	"fmt"
 	"html"
 	"html/template"
@@ -204,10 +205,12 @@ func loginPrefix(c *refstore.Client) string {
 
 var webURIs = []string{"https://app.example.com/cb", "https://app.example.com/cb?x=1", "http://app.example.com/cb",
 	"https://app.example.com/a%20b", "http://localhost/cb", "http://127.0.0.1:8080/cb", "https://app.example.com/cb#frag",
-	"https://other.example.org/oidc/callback", "myapp://callback"}
+	"https://other.example.org/oidc/callback", "myapp://callback",
+	// registered URIs that contain glob metacharacters (IPv6 literal, query, literal * and braces)
+	"https://[2001:db8::1]/cb", "https://rp.example/cb?src=op", "https://app.example.com/cb/*", "https://app.example.com/{a,b}/cb"}
 var nativeURIs = []string{"http://localhost/cb", "http://127.0.0.1/cb", "http://127.0.0.1:8080/cb?a=b", "http://[::1]/cb",
 	"com.example.app:/cb", "myapp://callback", "https://app.example.com/cb", "http://app.example.com/cb", "https://localhost/cb",
-	"http://localhost:3000/auth/callback"}
+	"http://localhost:3000/auth/callback", "http://[::1]:8080/cb?x=1", "https://[2001:db8::1]/cb", "myapp://cb?x=*"}
 var globPool = []string{"https://*.example.com/cb", "https://app.example.com/**", "https://app.example.com/{cb,cb2}",
 	"http://localhost:*/cb", "myapp://*", "https://app.example.com/c?", "http://127.0.0.1:*/**", "https://[", "https://app.example.com/[a-",
 	"https://app.example.com/{cb", "http://*/cb", "**"}
@@ -237,9 +240,9 @@ func genClient(r drv.Rand, id string) *refstore.Client {
 	for i := 0; i < n; i++ {
 		c.Redirects = append(c.Redirects, drv.Pick(r, pool))
 	}
-	if r.Chance(2, 5) {
+	if r.Chance(1, 2) {
 		c.UseGlobs = true
-		ng := 1 + r.IntN(2)
+		ng := r.IntN(3) // a client may implement HasRedirectGlobs without registering any glob
 		for i := 0; i < ng; i++ {
 			c.RedirectGlobs = append(c.RedirectGlobs, drv.Pick(r, globPool))
 		}
@@ -331,8 +334,63 @@ func mutate(r drv.Rand, base string) (string, string) {
 	}
 }
 
+// patternInstance: a string that the registered URI reg would match IF it were read as a
+// glob pattern (which nobody opted into): '?' -> some character, '[..]' -> a member of the
+// class, '*' -> some text, '{a,b}' -> an alternative. ok=false when reg has no metacharacter.
+func patternInstance(r drv.Rand, reg string) (string, bool) {
+	var sb strings.Builder
+	for i := 0; i < len(reg); i++ {
+		switch ch := reg[i]; ch {
+		case '?':
+			sb.WriteByte(drv.Pick(r, []byte("Xz9/")))
+		case '*':
+			sb.WriteString(drv.Pick(r, []string{"", "evil", "a/b", "x.y"}))
+		case '[':
+			j := strings.IndexByte(reg[i+1:], ']')
+			if j <= 0 {
+				return "", false
+			}
+			class := strings.TrimLeft(reg[i+1:i+1+j], "^!")
+			if class == "" {
+				return "", false
+			}
+			sb.WriteByte(class[r.IntN(len(class))])
+			i += j + 1
+		case '{':
+			j := strings.IndexByte(reg[i+1:], '}')
+			if j < 0 {
+				return "", false
+			}
+			sb.WriteString(drv.Pick(r, strings.Split(reg[i+1:i+1+j], ",")))
+			i += j + 1
+		case '\\':
+			if i+1 < len(reg) {
+				i++
+				sb.WriteByte(reg[i])
+			}
+		default:
+			sb.WriteByte(ch)
+		}
+	}
+	out := sb.String()
+	if out == reg {
+		return "", false
+	}
+	if m, err := doublestar.Match(reg, out); err != nil || !m {
+		return "", false
+	}
+	return out, true
+}
+
 func genURI(r drv.Rand, c *refstore.Client) (string, string) {
 	base := drv.Pick(r, c.Redirects)
+	if r.Chance(1, 4) {
+		for _, reg := range c.Redirects {
+			if u, ok := patternInstance(r, reg); ok {
+				return u, "patshot"
+			}
+		}
+	}
 	if c.UseGlobs && r.Chance(1, 3) {
 		return drv.Pick(r, globShots), "globshot"
 	}
@@ -389,6 +447,64 @@ func hasBadGlob(c *refstore.Client) bool {
 
 // ---------------------------------------------------------------- histories
 
+// errKind: the error VALUE a failing storage call returns.
+type errKind struct {
+	kind int    // 0 plain Go error, 1 typed *oidc.Error with code, 2 typed and redirect-disabled
+	code string // kind 1
+	wrap bool   // wrapped once more with fmt.Errorf("%w") (not a model dimension: errors.As sees through)
+}
+
+func (k errKind) term() string {
+	switch k.kind {
+	case 1:
+		return emit.Ctor("EK_Typed", emit.Str(k.code))
+	case 2:
+		return "EK_NoRedirect"
+	}
+	return "EK_Plain"
+}
+
+func (k errKind) mk() func() error {
+	return func() error {
+		var e error
+		switch k.kind {
+		case 1:
+			switch k.code {
+			case "invalid_client":
+				e = oidc.ErrInvalidClient().WithDescription("no such client")
+			case "access_denied":
+				e = oidc.ErrAccessDenied()
+			default:
+				e = oidc.ErrServerError().WithDescription("backend down")
+			}
+		case 2:
+			e = oidc.ErrInvalidRequestRedirectURI().WithDescription("storage says no")
+		default:
+			e = errors.New("storage: injected failure")
+		}
+		if k.wrap {
+			e = fmt.Errorf("storage layer: %w", e)
+		}
+		return e
+	}
+}
+
+func (k errKind) tag() string {
+	return []string{"plain", "typed", "noredirect"}[k.kind]
+}
+
+func genErrKind(r drv.Rand) errKind {
+	k := errKind{wrap: r.Chance(1, 3)}
+	switch r.IntN(5) {
+	case 0, 1:
+	case 2, 3:
+		k.kind, k.code = 1, drv.Pick(r, []string{"invalid_client", "server_error", "access_denied"})
+	default:
+		k.kind = 2
+	}
+	return k
+}
+
 type areq struct {
 	client, uri, rt, mode string
 	malformed, reqobj     bool
@@ -397,12 +513,23 @@ type areq struct {
 	host                  string // Request.Host ("" = op.example.com)
 	hintIss               string // "" = no signed hint; else a hint really signed for this issuer is sent
 	fault                 int    // 0 none, 1 GetClientByClientID, 2 CreateAuthRequest
+	fkind                 errKind
 }
 
 func (q areq) term() string {
 	return emit.Ctor("Build_areq", emit.Str(q.client), emit.Str(q.uri), emit.Str(q.rt), emit.Str(q.mode),
 		emit.Bool(q.malformed), emit.Bool(q.reqobj), []string{"P_Ok", "P_Bad", "P_None"}[q.prompt],
-		emit.Bool(q.noscope), emit.Bool(q.hintBad), []string{"AF_None", "AF_GetClient", "AF_Create"}[q.fault])
+		emit.Bool(q.noscope), emit.Bool(q.hintBad), q.faultTerm())
+}
+
+func (q areq) faultTerm() string {
+	switch q.fault {
+	case 1:
+		return emit.Ctor("AF_GetClient", q.fkind.term())
+	case 2:
+		return emit.Ctor("AF_Create", q.fkind.term())
+	}
+	return "AF_None"
 }
 
 func (q areq) values() url.Values {
@@ -448,6 +575,7 @@ type hop struct {
 	q      areq
 	k      int // login / callback target; -1 = no id
 	fault  int // callback: 0 none 1 AuthRequestByID 2 GetClientByClientID 3 SaveAuthCode
+	fkind  errKind
 }
 
 func routerName(r opfix.Router) string {
@@ -468,7 +596,16 @@ func (h hop) term() string {
 		if h.k >= 0 {
 			k = emit.Some(emit.Nat(h.k))
 		}
-		return emit.Ctor("Callback", routerName(h.router), k, []string{"CF_None", "CF_ByID", "CF_GetClient", "CF_SaveCode"}[h.fault])
+		ft := "CF_None"
+		switch h.fault {
+		case 1:
+			ft = "CF_ByID"
+		case 2:
+			ft = emit.Ctor("CF_GetClient", h.fkind.term())
+		case 3:
+			ft = emit.Ctor("CF_SaveCode", h.fkind.term())
+		}
+		return emit.Ctor("Callback", routerName(h.router), k, ft)
 	}
 }
 
@@ -512,6 +649,8 @@ type session struct {
 	clients             []*refstore.Client
 	store               *refstore.Store
 	f                   *opfix.Fixture
+	fail                *refstore.Failing
+	notfound            errKind
 	ids                 []string
 	outs, opTerms, uris []string
 	human               []map[string]any
@@ -538,6 +677,9 @@ func signHint(iss string) string {
 // dynamicIssuer sessions derive the issuer from Request.Host (op.IssuerFromHost)
 var dynamicIssuer bool
 
+// sessionNotFound: how the storage of the next session reports an unknown client
+var sessionNotFound errKind
+
 func hostOf(q areq) string {
 	if q.host == "" {
 		return "op.example.com"
@@ -551,18 +693,24 @@ func newSession(reqobj bool, clients []*refstore.Client) *session {
 		store.Clients[c.ID] = c
 	}
 	store.Users["alice"] = &refstore.User{Subject: "alice", Name: "Alice"}
-	var f *opfix.Fixture
-	var err error
+	issuer := op.StaticIssuer(opfix.Issuer)
 	if dynamicIssuer {
-		f, err = opfix.NewWithIssuer(store, opfix.Options{NoReqObj: !reqobj}, op.IssuerFromHost(""))
-	} else {
-		f, err = opfix.New(store, opfix.Options{NoReqObj: !reqobj})
+		issuer = op.IssuerFromHost("")
 	}
+	nf := sessionNotFound
+	fail := &refstore.Failing{Errs: map[string]func() error{}}
+	if nf.kind != 0 || nf.wrap {
+		fail.NotFound = nf.mk()
+	}
+	f, err := opfix.NewWithStorage(store, opfix.Options{NoReqObj: !reqobj}, issuer, func(st op.Storage) op.Storage {
+		fail.Storage = st
+		return fail
+	})
 	if err != nil {
 		fmt.Fprintln(os.Stderr, "fixture:", err)
 		os.Exit(2)
 	}
-	return &session{reqobj: reqobj, clients: clients, store: store, f: f}
+	return &session{reqobj: reqobj, clients: clients, store: store, f: f, fail: fail, notfound: nf}
 }
 
 func (s *session) step(h hop) {
@@ -576,9 +724,11 @@ func (s *session) step(h hop) {
 		for id := range store.AuthReqs {
 			before[id] = true
 		}
-		store.FaultMethod = []string{"", "GetClientByClientID", "CreateAuthRequest"}[h.q.fault]
+		if m := []string{"", "GetClientByClientID", "CreateAuthRequest"}[h.q.fault]; m != "" {
+			s.fail.Errs[m] = h.q.fkind.mk()
+		}
 		resp := f.GetAt(h.router, hostOf(h.q), "", "/authorize", h.q.values())
-		store.FaultMethod = ""
+		clear(s.fail.Errs)
 		newID, prefix := "", ""
 		var fresh []string
 		for id := range store.AuthReqs {
@@ -618,9 +768,11 @@ func (s *session) step(h hop) {
 				q.Set("id", "nope")
 			}
 		}
-		store.FaultMethod = []string{"", "AuthRequestByID", "GetClientByClientID", "SaveAuthCode"}[h.fault]
+		if m := []string{"", "AuthRequestByID", "GetClientByClientID", "SaveAuthCode"}[h.fault]; m != "" {
+			s.fail.Errs[m] = h.fkind.mk()
+		}
 		resp := f.GetAt(h.router, hostOf(h.q), "", "/authorize/callback", q)
-		store.FaultMethod = ""
+		clear(s.fail.Errs)
 		s.outs = append(s.outs, observe(resp, "", ""))
 		s.human = append(s.human, map[string]any{"op": "callback", "router": h.router.String(), "k": h.k, "fault": h.fault, "status": resp.Status, "location": resp.Header.Get("Location"), "body": trunc(resp.Body)})
 	}
@@ -631,9 +783,9 @@ func (s *session) emit(w *emit.Writer, tags []string) {
 	for i, c := range s.clients {
 		cl[i] = clientTerm(c)
 	}
-	in := emit.Ctor("IHistory", emit.Bool(s.reqobj), emit.List(cl), tables(s.clients, s.uris), emit.List(s.opTerms))
+	in := emit.Ctor("IHistory", emit.Bool(s.reqobj), s.notfound.term(), emit.List(cl), tables(s.clients, s.uris), emit.List(s.opTerms))
 	w.Add(emit.Case{Input: in, Observed: emit.Ctor("OHistory", emit.List(s.outs)), Tags: tags,
-		Human: map[string]any{"clients": clientsHuman(s.clients), "steps": s.human}})
+		Human: map[string]any{"clients": clientsHuman(s.clients), "notfound": s.notfound.tag(), "steps": s.human}})
 }
 
 func runHistory(w *emit.Writer, reqobj bool, clients []*refstore.Client, ops []hop, tags []string) {
@@ -668,8 +820,11 @@ func genHistory(r drv.Rand, w *emit.Writer) {
 	var ops []hop
 	dynamicIssuer = r.Chance(1, 3)
 	dyn := dynamicIssuer
+	sessionNotFound = genErrKind(r)
+	nfTag := sessionNotFound.tag()
 	s := newSession(reqobj, clients)
 	dynamicIssuer = false
+	sessionNotFound = errKind{}
 	do := func(h hop) { ops = append(ops, h); s.step(h) }
 	nflows := 1 + r.IntN(2)
 	var muts []string
@@ -684,7 +839,9 @@ func genHistory(r drv.Rand, w *emit.Writer) {
 		muts = append(muts, kind)
 		mut := "none"
 		if r.Chance(2, 5) { // an error-provoking parameter before / after URI validation
-			switch r.IntN(11) {
+			switch r.IntN(13) {
+			case 11, 12:
+				q.client, mut = "nobody", "client"
 			case 0:
 				q.malformed, mut = true, "malformed"
 			case 1:
@@ -698,9 +855,11 @@ func genHistory(r drv.Rand, w *emit.Writer) {
 			case 5:
 				q.hintBad, mut = true, "hintbad"
 			case 6:
-				q.fault, mut = 1, "faultclient"
+				q.fault, q.fkind = 1, genErrKind(r)
+				mut = "faultclient-" + q.fkind.tag()
 			case 7:
-				q.fault, mut = 2, "faultcreate"
+				q.fault, q.fkind = 2, genErrKind(r)
+				mut = "faultcreate-" + q.fkind.tag()
 			case 8:
 				q.rt, mut = drv.Pick(r, []string{"", "token", "code id_token"}), "rt"
 			case 9:
@@ -731,7 +890,7 @@ func genHistory(r drv.Rand, w *emit.Writer) {
 		}
 		cb := hop{kind: 2, router: pickRouter(r), k: k}
 		if r.Chance(1, 4) {
-			cb.fault = 1 + r.IntN(3)
+			cb.fault, cb.fkind = 1+r.IntN(3), genErrKind(r)
 		}
 		if r.Chance(1, 10) {
 			cb.k = drv.Pick(r, []int{-1, 7})
@@ -741,7 +900,7 @@ func genHistory(r drv.Rand, w *emit.Writer) {
 			do(hop{kind: 2, router: pickRouter(r), k: r.IntN(len(s.ids) + 1)})
 		}
 	}
-	tags := []string{"kind=history", fmt.Sprintf("clients=%d", nc), fmt.Sprintf("reqobj=%v", reqobj), fmt.Sprintf("dynissuer=%v", dyn)}
+	tags := []string{"kind=history", fmt.Sprintf("clients=%d", nc), fmt.Sprintf("reqobj=%v", reqobj), fmt.Sprintf("dynissuer=%v", dyn), "notfound=" + nfTag}
 	seen := map[string]bool{}
 	for _, m := range muts {
 		t := m
